@@ -1,4 +1,3 @@
-pub assume_specification [u64::cast_signed] (a: u64) -> (r: i64) ensures r == a as i64;
 
 // bash manual, "Shell Arithmetic": base#n; digits above 9: lowercase, uppercase, '@', '_' in that order;
 // if base <= 36 lowercase and uppercase may be used interchangeably
